@@ -455,6 +455,30 @@ class Run:
             except base.Violation as err:
                 self.violations.append({**err.as_dict(), 'site': f'{op["op"]}:{op.get("kind", "")}:{site.split(" cut@")[0]}',
                                         'replay_ops': self.trace + [trace_op]})
+        # the same for transient I/O errors: every directory listing the operation makes fails once
+        listings = list(range(1, dry.meta.get('listings', 0) + 1))
+        if self.enum != 'all' and len(listings) > 8:
+            listings = sorted(self.enum_rng.sample(listings, 8))
+        for k in listings:
+            self.box.restore(snap)
+            self.model = copy.deepcopy(before)
+            self.digests = dict(saved_digests)
+            where = f'op{idx} {label} with a transient I/O error in its directory listing #{k}'
+            res = self.oneshot(wseed, name, args, {'ioerr': k})
+            self.stats['io_error_points'] += 1
+            self.stats['fault:io-error-in-listing'] += 1
+            try:
+                if res.status not in ('ok', 'exc'):
+                    raise base.HarnessError(f'{where}: {res.status} {res.exc}')
+                branch = self.settle(where, before, after)
+                if res.ok and branch == 'before':
+                    raise base.Violation('verdict-mismatch', f'{where}: reported success but nothing was committed')
+                self.check_append_only(where)
+                self.shapes.add((op['op'], op.get('kind'), len(op.get('states', [])), f'io-error-in-listing#{k}', False,
+                                 branch, self.tree_shape()))
+            except base.Violation as err:
+                self.violations.append({**err.as_dict(), 'site': f'{op["op"]}:{op.get("kind", "")}:io-error-in-listing',
+                                        'replay_ops': self.trace + [{**op, 'crash': None, 'ioerr': k}]})
         self.box.restore(snap)
         self.box.drop(snap)
         self.model = before
@@ -882,15 +906,16 @@ def main(argv: list[str]) -> int:
         print(f'  class={klass} site={site}: {(got or vio)["detail"][:300]}')
         nviol += 1
     wall = time.monotonic() - start
-    evaluations = stats.get('crash_points', 0)
+    evaluations = stats.get('crash_points', 0) + stats.get('io_error_points', 0)
     coverage = {
         'evaluations': int(evaluations),
         'distinct_nontrivial': len(shapes),
-        'rule': 'one evaluation = one process death injected at a numbered mutating file-system call (or inside a '
-                'write, torn) of a publish or commit executed by real forml code, followed by a fresh-process '
-                'read-back compared with the reference model and a retried operation; distinct = distinct '
-                '(operation shape, crash site, torn?, settled branch, normalised resulting tree) tuples; all are '
-                'non-trivial (each lands inside an operation that has in-flight state)',
+        'rule': 'one evaluation = one fault injected into a publish or commit executed by real forml code - a process death '
+                'before a numbered mutating file-system call, inside a write (torn) or after completion, or a transient '
+                'I/O error in a numbered directory listing - followed by a fresh-process read-back compared with the '
+                'reference model and (for deaths) a retried operation; distinct = distinct (operation shape, fault site, '
+                'torn?, settled branch, normalised resulting tree) tuples; all are non-trivial (each lands inside an '
+                'operation that has in-flight state)',
         'samples': samples,
         'histories': len(results), 'distinct_history_digests': len(histories),
         'seeds': [jobs[0][0], jobs[len(results) - 1][0]] if results else [],
